@@ -21,7 +21,7 @@ fn domain(field: &str) -> Vec<&'static str> {
     match field {
         "bpdir" => vec!["set", "unset"],
         "desc" => vec!["ok", "otherapi", "malformed", "missing", "restbad"],
-        "exe" => vec!["detect", "build", "other"],
+        "exe" => vec!["detect", "build", "foo", "detect.bak", "build.sh", "rebuild", "Detect", "detect-v2"],
         "argc" => vec!["0", "1", "2", "3", "4"],
         "platform" => vec!["ok", "rich", "noenvdir", "envisfile", "nonutf8"],
         "plan" => vec!["ok", "malformed", "missing"],
@@ -31,7 +31,8 @@ fn domain(field: &str) -> Vec<&'static str> {
         "detect" => vec!["pass", "pass_plan", "fail", "error"],
         "planpath" => vec!["ok", "unwritable"],
         "berror" => vec!["none", "buildpack", "layer"],
-        "launch" | "storeout" | "pre" => vec!["yes", "no"],
+        "launch" | "storeout" => vec!["yes", "empty", "no"],
+        "pre" => vec!["yes", "no"],
         "bsbom" | "lsbom" => vec!["s0", "s1", "s2", "s3"],
         o => panic!("field {o}"),
     }
@@ -73,7 +74,7 @@ fn run_case(case: &Value, variation: u64, vbp: &Path, scratch: &Path) -> Vec<Pro
         fs::create_dir_all(d).unwrap();
     }
     fs::create_dir_all(bp.join("bin")).unwrap();
-    for n in ["detect", "build", "foo"] {
+    for n in ["detect", "build", "foo", "detect.bak", "build.sh", "rebuild", "Detect", "detect-v2"] {
         std::os::unix::fs::symlink(vbp, bp.join("bin").join(n)).unwrap();
     }
     // buildpack.toml
@@ -168,7 +169,7 @@ fn run_case(case: &Value, variation: u64, vbp: &Path, scratch: &Path) -> Vec<Pro
     // script + argv + environment
     let script = json!({"detect": c("detect"), "berror": c("berror"), "launch": c("launch"), "storeout": c("storeout"), "bsbom": sbom_set(c("bsbom")), "lsbom": sbom_set(c("lsbom"))});
     fs::write(t.join("script.json"), script.to_string()).unwrap();
-    let exe_name = match c("exe") { "detect" => "detect", "build" => "build", _ => "foo" };
+    let exe_name = c("exe");
     let natural: Vec<PathBuf> = if c("exe") == "build" { vec![layers.clone(), platform.clone(), plan_path.clone()] } else { vec![platform.clone(), plan_path.clone()] };
     let argc: usize = c("argc").parse().unwrap();
     let mut argv: Vec<PathBuf> = natural.iter().take(argc).cloned().collect();
@@ -254,8 +255,14 @@ fn run_case(case: &Value, variation: u64, vbp: &Path, scratch: &Path) -> Vec<Pro
             if want.contains(*n) {
                 let ok = match (*n, &got) {
                     (_, None) => false,
-                    ("launch.toml", Some(b)) => String::from_utf8_lossy(b).parse::<toml::Table>().ok().is_some_and(|t| t.get("processes").and_then(|p| p.as_array()).is_some_and(|a| a.len() == 1 && a[0].get("type").and_then(|x| x.as_str()) == Some("web"))),
-                    ("store.toml", Some(b)) => String::from_utf8_lossy(b).parse::<toml::Table>().ok().is_some_and(|t| t.get("metadata").and_then(|m| m.get("written-by")).and_then(|x| x.as_str()) == Some("vbp")),
+                    ("launch.toml", Some(b)) => String::from_utf8_lossy(b).parse::<toml::Table>().ok().is_some_and(|t| {
+                        let procs = t.get("processes").and_then(|p| p.as_array()).cloned().unwrap_or_default();
+                        if c("launch") == "empty" { procs.is_empty() && !String::from_utf8_lossy(b).contains("stale") } else { procs.len() == 1 && procs[0].get("type").and_then(|x| x.as_str()) == Some("web") }
+                    }),
+                    ("store.toml", Some(b)) => String::from_utf8_lossy(b).parse::<toml::Table>().ok().is_some_and(|t| {
+                        let md = t.get("metadata").and_then(|m| m.as_table()).cloned().unwrap_or_default();
+                        if c("storeout") == "empty" { md.is_empty() } else { md.len() == 1 && md.get("written-by").and_then(|x| x.as_str()) == Some("vbp") }
+                    }),
                     (n, Some(b)) => {
                         let (kind, f) = n.split_once(".sbom.").unwrap();
                         *b == format!("{{\"sbom\":\"{kind} {f}\"}}").into_bytes()
